@@ -230,6 +230,8 @@ def _entries(run: Run):
             refs = [r for r in _module_refs(m, short) if not (isinstance(r, ast.Name) and isinstance(r.ctx, ast.Store))]
             if refs:
                 continue
+        if ci is not None and ci.name.startswith("_") and not (ci.is_subclass_of("Evaluatable") or ci.is_subclass_of("Effect")):
+            continue        # methods of a private helper class (a slot / registry object): seen through their callers
         out.append((q, fn, ci))
     return out
 
@@ -495,7 +497,9 @@ def rule_NR(run: Run) -> RuleResult:
             why = "bulk update with unknown values"
         else:
             why = _maybe_none_term(a.value, a)
-        k = (_owner_of(run, a.event.line, a.entry), a.event.line)
+        own_ = _owner_of(run, a.event.line, a.entry)
+        # (a store made by a shared private helper — a method of a slot object, say — is one store per entry point that reaches it)
+        k = (own_ if own_ == a.entry or "._" not in own_ else f"{a.entry} via {own_.rsplit('.', 1)[-1]}", a.event.line)
         if k not in sites or (why is not None and sites[k][0] is None):
             sites[k] = (why, a)
     for (entry, line), (why, a) in sorted(sites.items()):
@@ -939,10 +943,12 @@ def rule_LS(run: Run) -> RuleResult:
     # inside ``with lock:``, between lock.acquire() and lock.release(), or inside a context manager whose
     # __enter__ takes the lock and whose __exit__ releases it
     seen: Dict[tuple, list] = {}
+    reached = set()         # (entry point, line of the access): accesses made through a shared private helper count once per entry point
     for q, fn, ci in _entries_of(run, m):
         for p in _paths_of(run, m, fn, ci):
             for e, meth, key, val, wr in _table_events(p, T_KEY):
                 o = _owner_of(run, e.line, q)
+                reached.add((q, e.line))
                 s = seen.setdefault((o, e.line, TABLE, "access to"), [True, ()])
                 s[0] = s[0] and LOCK_KEY in e.held
                 s[1] = e.held
@@ -956,7 +962,7 @@ def rule_LS(run: Run) -> RuleResult:
     for (o, line, tab, what), (ok, held) in sorted(seen.items()):
         n_tab += tab == TABLE
         res.add(f"{o}:{what} {tab} under lock", ok, m.relpath, line, f"held: {list(held)}", nec)
-    if n_tab < 5:
+    if max(n_tab, len(reached)) < 5:
         raise AnalysisError(f"only {n_tab} accesses of {TABLE} found (6 confirmed by hand)")
     lockdef = m.names.get(LOCKNAME)
     ok = lockdef is not None and lockdef[0] == "var" and ast.unparse(lockdef[1]).startswith("threading.") and "Lock" in ast.unparse(lockdef[1])
@@ -1273,7 +1279,8 @@ def rule_TI(run: Run) -> RuleResult:
         shown = "the current thread" if kt == OWN_THREAD else (kt or "no key (whole table)")
         res.add(f"{entry}:{TABLE} indexed by {shown}", good, m.relpath, line,
                 ("write" if a.write else "read") + f" ({method}) keyed by {shown}" + (" (the parent's slot is only read)" if parent_read else ""), nec)
-    if len(sites) < 5:
+    # (an access made through a shared private helper counts once per entry point that reaches it)
+    if max(len(sites), len({(a.entry, a.event.line, a.method) for a in _accesses(run)})) < 5:
         raise AnalysisError(f"only {len(sites)} keyed accesses of {TABLE} found")
     # no other module reaches into the table
     for mm in run.repo.modules.values():
